@@ -421,3 +421,25 @@ package netpoll
 //@   modifies world, s.operator.FD, s.operator.OnRead, s.operator.OnHup, s.operator.poll, FDOperator.state, FDOperator.detached, srvQuit, runFailed, s.operator.OnWrite, s.operator.Inputs, s.operator.InputAck, s.operator.Outputs, s.operator.OutputAck, s.operator.next, s.operator.index
 //@   ghost after call (*manager).Pick#1: assume result != nil
 //@   ghost before call dyn.onQuit#1: srvQuit = true
+
+// the poller-side callbacks of a dial's wait slot: each trigger channel is closed at most once (closing twice panics in the poller goroutine),
+// and the slot is deregistered before the writability trigger is closed (the dialer that wakes up frees the slot)
+//@ ghost global pdDetached bool
+//@ func (*pollDesc).detach
+//@   property C14
+//@   requires pd.operator != nil && pd.operator.poll != nil && pd.operator.detached >= 0 && pd.operator.detached < 2147483000
+//@   ensures pd.operator.detached == old(pd.operator.detached) + 1
+//@   modifies FDOperator.state, pd.operator.detached
+//@ func (*pollDesc).onwrite
+//@   property C14
+//@   requires pd.operator != nil && pd.operator.poll != nil && pd.operator.detached >= 0 && pd.operator.detached < 2147483000 && pd.writeTrigger != nil
+//@   threadlocal !pdDetached
+//@   ensures result == nil
+//@   modifies FDOperator.state, pd.operator.detached, pdDetached, key:chan.closed
+//@   ghost after call (*pollDesc).detach#1: pdDetached = true
+//@   ghost before call close#1: assert pdDetached
+//@ func (*pollDesc).onhup
+//@   property C14
+//@   requires pd.closeTrigger != nil
+//@   ensures result == nil
+//@   modifies key:chan.closed
